@@ -247,6 +247,11 @@ def wfRec (hs : Nat) (r : Rec) : Bool :=
 
 /-! ## specification vocabulary: what the writer *means* to have written -/
 
+/-- zlib as the theorems see it (a hypothesis on the parameters, never an axiom): a deflated block followed by
+anything inflates to the original and leaves exactly what followed. -/
+def ZlibOk (deflate : Bytes → Bytes) (inflate : Bytes → Option (Bytes × Bytes)) : Prop :=
+  ∀ x rest, inflate (deflate x ++ rest) = some (x, rest)
+
 /-- The entry the writer intends for record `r` at `offset` (same OFS/REF decision as `entryBytes`). -/
 def entryOf (offset : Nat) (entries : List WEntry) (r : Rec) : Entry :=
   match r.base with
